@@ -152,7 +152,7 @@ def render_files(prog, order=None):
         imports = "".join("from . import %s\n" % o for o in others)
         text = HEADER % imports
         for d in defs:
-            if d["mod"] == mod:
+            if d["mod"] == mod and not d.get("late"):
                 text += render_def(prog, d) + "\n"
         files["%s/%s.py" % (prog["pkg"], mod)] = text
     return files
@@ -363,7 +363,7 @@ def apply_edit(prog, edit, tag):
 # ------------------------------------------------------------------------------------------
 
 def program_strategy(max_fns=6, two_modules=True, allow_hidden=True, allow_explicit=True, allow_cluster=True,
-                     str_sets=True, allow_hidden_plain=False):
+                     str_sets=True, allow_hidden_plain=False, allow_alias=True):
     from hypothesis import strategies as st
 
     small = st.integers(0, 9)
@@ -384,7 +384,7 @@ def program_strategy(max_fns=6, two_modules=True, allow_hidden=True, allow_expli
         fmem = {n: (True if n == "f0" else draw(st.sampled_from([True, True, True, False]))) for n in fnames}
         extra = []
         for n in fnames:
-            if draw(st.integers(0, 5)) == 0:
+            if allow_alias and draw(st.integers(0, 5)) == 0:
                 extra.append({"k": draw(st.sampled_from(["alias", "wrapper"])), "mod": fmods[n], "name": n + "_r", "target": n})
         call_targets = fnames + [x["name"] for x in extra]
         varnames = [d["name"] for d in defs]
@@ -498,3 +498,18 @@ def hidden_plain_reachable(prog, name):
                 if e["e"] == "hidden" and not resolve_fn(prog, e["f"])["memento"]:
                     return True
     return False
+
+
+def render_cells(prog):
+    """[[module, source]]: one header cell per module, then one cell per (non-late) definition in definition order."""
+    cells = []
+    for mod in prog["modules"]:
+        others = [m for m in prog["modules"] if m != mod]
+        cells.append([mod, HEADER % "".join("from . import %s\n" % o for o in others)])
+    for d in prog["defs"]:
+        if not d.get("late"):
+            cells.append([d["mod"], render_def(prog, d)])
+        elif d["late"] == "placeholder":
+            # the name exists, bound to something memento can neither hash nor call
+            cells.append([d["mod"], "%s = object()\n" % d["name"]])
+    return cells
